@@ -21,7 +21,7 @@ from models import fmt as mfmt
 ID = 'C08'
 PROFILES = ['dev']
 REPLAY_PROFILES = ['dev', 'release']
-TIME_LIMIT = {'quick': 900, 'thorough': 2400}
+TIME_LIMIT = {'quick': 900, 'thorough': 3300}
 BUDGET = 150
 FIRST_BUDGET = 40
 
